@@ -125,11 +125,15 @@ PROPS["C14"] = {
              "pre-filled 64-byte buffer -> bytes at the documented offsets equal the fields -> Decode -> fields equal; and arbitrary "
              "64 bytes -> Decode reads every field from its documented offset -> Encode reproduces every defined byte (per-type mask; "
              "padding undefined). Offsets: README diagrams for the lock request/response, type declarations (field order, Blank[N]) "
-             "for the undocumented types, never the Encode/Decode bodies. text: 1-4 requests / 1-5 replies (OK, ERR, bulk, array) of "
-             "binary-safe, possibly empty arguments (<= 64 KiB) -> BuildRequest/BuildResponse must equal an independent RESP writer -> "
-             "delivered to a fresh TextParser with the exact loop of TextServerProtocol.Process / TextClientProtocol.Read "
-             "(optionally a first <= 64-byte delivery through CopyToReadBuf as Server.checkProtocol does) under a drawn plan "
-             "(read-buffer size, repeating chunk pattern, cuts aimed at length lines / CRLFs / simple-string ends) -> same arguments. "
+             "for the undocumented types, never the Encode/Decode bodies. text: 1-8 requests (1..200 arguments, incl. 64/65/66/100/200) / 1-8 replies (+simple, -error, single bulk, nil bulk "
+             "'$-1', arrays of 2..200 elements incl. > 64) of binary-safe, possibly empty arguments (<= 64 KiB) -> "
+             "BuildRequest/BuildResponse must equal an independent RESP writer -> every message alone on a fresh TextParser gives "
+             "back what was built -> the whole sequence through ONE TextParser with the exact reuse loop of TextServerProtocol.Process "
+             "/ TextClientProtocol.Read (BufferUpdate when IsBufferEnd, Reset after every finished message; optionally a first "
+             "<= 64-byte delivery through CopyToReadBuf as Server.checkProtocol does) under a drawn plan (read-buffer size, repeating "
+             "chunk pattern, cuts aimed at length lines / CRLFs / simple-string ends / message ends; streams > 8 KiB in pieces >= 64 "
+             "bytes) -> per message the same arguments as the fresh parser, every complete message finished; a failure that persists "
+             "with a single delivery is keyed state-carried-across-messages. "
              "key/id: strings of 0..64 bytes (hex, near-hex, boundary lengths) vs a model written from the README. result text: every "
              "code 0..12 renders [code,msg,LOCK_ID,hex,LCOUNT,n,COUNT,n+1,LRCOUNT,n,RCOUNT,n+1(,DATA,v)] and ParseResponse reads it back. "
              "text LOCK/UNLOCK with the README's options in any order -> command fields of the model (into a dirty recycled command). "
@@ -145,6 +149,7 @@ PROPS["C14"] = {
              "server decode/encode - every request field non-zero (encode: and result, lcount, lrcount non-zero); live - >= 2 grants "
              "and >= 1 refusal. Distinct = FNV-64 of the whole case."),
     "assumptions": [
+        "':' integer replies are not generated (BuildResponse cannot produce them, ParseResponse has no integer type); a nil bulk reply may be reported with no element or with one empty element",
         "CALL method names / error types / leader hosts contain no NUL byte (NUL is the padding byte); LeaderResultCommand.HostLen = len(Host) as its constructor sets it",
         "a request has at least one argument ('*0' is not generated, see section 4)",
         "simple strings and errors contain no CR/LF (RESP's own precondition)",
